@@ -22,7 +22,7 @@ META = {
  'C06': ('model-based PBT over scripted sessions (readline hook owns the schedule): per-line expectation from independently parsed matchers',
          'The harness owns the interleaving of lines and commands and attributes every output line to the input item that produced it.',
          'Matcher meaning is C05\'s business: expectations use an independently parsed copy of the same matcher text.'),
- 'C07': ('exhaustive enumeration of shipped protocol lookups + PBT over synthetic multi-version XML sets in every load order vs independent XML reader + model-based PBT over generated histories (decoration is a function of the message alone) + differential runs of copies of the tree installed elsewhere',
+ 'C07': ('exhaustive enumeration of shipped protocol lookups + PBT over synthetic multi-version XML sets in every load order vs independent XML reader + model-based PBT over generated histories in log mode and as closures from several threads in GDB mode (decoration is a function of the message alone) + differential runs of copies of the tree installed elsewhere',
          'All shipped interfaces x messages x argument positions and enum decodes are enumerated; version precedence is searched over generated XML.',
          'protoxml.py (own ElementTree reader) is the oracle; ties at equal maximal version accept any one description.'),
  'C08': ('PBT over generated streams with chatter: line-by-line conservation, keeps-pace via read hook, prefix law at every truncation offset; line-count conservation of real main.py runs under generated option combinations',
@@ -34,7 +34,7 @@ META = {
  'C10': ('model-based stateful PBT (RuleBasedStateMachine) on Plugin+Controller with the gdb stand-in; prompt loop with scripted input',
          'stop() results, Stopped-at notices and gdb.execute log compared with a model of breakpoint/selection/pause after every step.',
          'fakegdb stand-in (a quit can be declined at its confirmation); breakpoint accumulation model shared with C12; connection-only and bare-id alternatives are evaluated by evaluators of our own, other atoms by a parse of that single atom.'),
- 'C11': ('model-based PBT over scripted sessions (also sessions of thousands of messages expanded from templates): `list` output vs independently filtered record and vs the reference semantics of the matcher language; count identity; state unchanged',
+ 'C11': ('model-based PBT over scripted sessions (also sessions of thousands of messages expanded from templates, and fresh main.py processes loading 100 000 .. 270 000 messages): `list` output vs independently filtered record and vs the reference semantics of the matcher language; count identity; state unchanged',
          'Every listing is compared with the recorded history filtered by an independently parsed matcher, including caps and counts.',
          'Listings whose matcher was rendered from a syntax tree are also compared with the reference semantics of DESIGN appendix A where that is settled; other matcher texts are evaluated with a fresh parse of the same text.'),
  'C12': ('model-based PBT: sequences of filter/breakpoint commands vs accumulator model over atoms, evaluated on a message universe after every step',
